@@ -227,20 +227,11 @@ var ruleLookup = &core.Rule{ID: "R14.4", Min: 4,
 				}
 			}
 		}
-		okAl := false
-		if alLoad != nil {
-			for _, r := range fde.FindRangeOver(f, alLoad) {
-				iff := core.IfOf(r.Body)
-				if iff == nil {
-					continue
-				}
-				if bo, ok := iff.Cond.(*ssa.BinOp); ok && bo.Op == token.EQL && ((bo.X == ssa.Value(r.Load) && bo.Y == ssa.Value(name)) || (bo.Y == ssa.Value(r.Load) && bo.X == ssa.Value(name))) {
-					if rs := retOf(r.Body.Succs[0]); rs != nil && rs.Results[0] == ssa.Value(recv) && r.Body.Succs[1] == r.Header {
-						okAl = true
-					}
-				}
-			}
-		}
+		okAl := aliasScanReturns(m, f, recv, name, func(hit *ssa.BasicBlock) bool {
+			rs := retOf(hit)
+			return rs != nil && rs.Results[0] == ssa.Value(recv)
+		})
+		_ = alLoad
 		s.Check(okAl, "name compared with every alias", c.Pos(f.Pos()), "range over all aliases, equality => node", "lookup does not compare the name with every registered alias of the node")
 		okCh := false
 		if chLoad != nil {
@@ -286,6 +277,105 @@ var ruleLookup = &core.Rule{ID: "R14.4", Min: 4,
 			}
 		}
 	}}
+
+// aliasLoopInline: f ranges over every alias of recv and tests each for
+// equality with name; hitOK judges the block reached on a hit; on a miss the
+// loop continues. Returns the loop when found.
+func aliasLoopInline(m *walkModel, f *ssa.Function, recv, name ssa.Value, hitOK func(*ssa.BasicBlock) bool) bool {
+	for _, b := range f.Blocks {
+		for _, in := range b.Instrs {
+			base, fld, ok := core.LoadOfField(valueOf(in))
+			if !ok || fld != m.tm.FAliases || base != recv {
+				continue
+			}
+			for _, r := range fde.FindRangeOver(f, valueOf(in)) {
+				iff := core.IfOf(r.Body)
+				if iff == nil {
+					continue
+				}
+				cond, pos := core.StripNot(iff.Cond, true)
+				bo, ok := cond.(*ssa.BinOp)
+				if !ok || (bo.Op != token.EQL && bo.Op != token.NEQ) {
+					continue
+				}
+				if !((bo.X == ssa.Value(r.Load) && bo.Y == name) || (bo.Y == ssa.Value(r.Load) && bo.X == name)) {
+					continue
+				}
+				hit, miss := r.Body.Succs[0], r.Body.Succs[1]
+				if (bo.Op == token.NEQ) == pos {
+					hit, miss = miss, hit
+				}
+				if miss == r.Header && hitOK(hit) {
+					return true
+				}
+			}
+		}
+	}
+	return false
+}
+
+// aliasHelper: g(recv, name) bool is a module helper that returns true exactly
+// when name equals one of recv's aliases (inline loop, true on hit, false after the loop).
+func aliasHelper(m *walkModel, g *ssa.Function) (recvIdx, nameIdx int, ok bool) {
+	if g == nil || g.Blocks == nil || !core.InMod(g) || g.Signature.Results().Len() != 1 {
+		return 0, 0, false
+	}
+	for ri, rp := range g.Params {
+		for ni, np := range g.Params {
+			if ri == ni || !core.IsString(np.Type()) {
+				continue
+			}
+			found := aliasLoopInline(m, g, rp, np, func(hit *ssa.BasicBlock) bool {
+				r := retOf(hit)
+				if r == nil {
+					return false
+				}
+				v, isC := core.ConstBool(r.Results[0])
+				return isC && v
+			})
+			if !found {
+				continue
+			}
+			// every other return is false
+			okRets := true
+			for _, r := range core.Returns(g) {
+				if v, isC := core.ConstBool(r.Results[0]); !isC {
+					okRets = false
+				} else if v {
+					continue
+				}
+			}
+			if okRets {
+				return ri, ni, true
+			}
+		}
+	}
+	return 0, 0, false
+}
+
+// aliasScanReturns: f compares name with every alias of recv — inline, or
+// through a verified helper whose true result leads to a block accepted by hitOK.
+func aliasScanReturns(m *walkModel, f *ssa.Function, recv, name ssa.Value, hitOK func(*ssa.BasicBlock) bool) bool {
+	if aliasLoopInline(m, f, recv, name, hitOK) {
+		return true
+	}
+	for _, ci := range core.Calls(f) {
+		call, ok := ci.(*ssa.Call)
+		if !ok {
+			continue
+		}
+		ri, ni, ok := aliasHelper(m, call.Call.StaticCallee())
+		if !ok || call.Call.Args[ri] != recv || call.Call.Args[ni] != name {
+			continue
+		}
+		for _, ref := range *call.Referrers() {
+			if iff, ok := ref.(*ssa.If); ok && hitOK(iff.Block().Succs[0]) {
+				return true
+			}
+		}
+	}
+	return false
+}
 
 func retOf(b *ssa.BasicBlock) *ssa.Return {
 	if len(b.Instrs) == 0 {
@@ -364,7 +454,36 @@ var ruleEquality = &core.Rule{ID: "R15.1", Min: 4,
 						}
 					}
 				}
-				s.Check(alLoad != nil && len(fde.FindRangeOver(f, alLoad)) == 1, core.FName(f)+": every alias is visited", c.Pos(f.Pos()), "range over all aliases", "Is does not range over all aliases of the node")
+				okVisit := false
+				_ = alLoad
+				for _, b := range f.Blocks {
+					for _, in := range b.Instrs {
+						if arg, ok := parsedOf(valueOf(in)); ok && valueOf(in) != nil {
+							if _, isRecvMime := arg.(*ssa.UnOp); isRecvMime {
+								continue
+							}
+							name := valueOf(in)
+							if aliasLoopInline(m, f, f.Params[0], name, func(hit *ssa.BasicBlock) bool {
+								r := retOf(hit)
+								if r == nil {
+									return false
+								}
+								v, isC := core.ConstBool(r.Results[0])
+								return isC && v
+							}) {
+								okVisit = true
+							}
+							for _, ci := range core.Calls(f) {
+								if call, ok := ci.(*ssa.Call); ok {
+									if ri, ni, ok := aliasHelper(m, call.Call.StaticCallee()); ok && call.Call.Args[ri] == ssa.Value(f.Params[0]) && call.Call.Args[ni] == name {
+										okVisit = true
+									}
+								}
+							}
+						}
+					}
+				}
+				s.Check(okVisit, core.FName(f)+": every alias is visited", c.Pos(f.Pos()), "range over all aliases (inline or through a verified helper), compared with the normalised argument", "Is does not compare the normalised argument with every alias of the node")
 				// receiver's type is parsed too
 				okRecv := false
 				for _, ci := range core.Calls(f) {
@@ -382,7 +501,34 @@ var ruleEquality = &core.Rule{ID: "R15.1", Min: 4,
 				v, ok := core.ConstBool(r.Results[0])
 				key := fmt.Sprintf("%s: %s", core.FName(f), returnOrdinal(r))
 				if !ok {
-					s.Bad(key, c.Pos(r.Pos()), "non-constant verdict")
+					// a composed verdict: every component is a constant, a normalised equality, or a verified alias helper
+					var okV func(x ssa.Value, depth int) bool
+					okV = func(x ssa.Value, depth int) bool {
+						if depth > 6 {
+							return false
+						}
+						if _, isC := core.ConstBool(x); isC {
+							return true
+						}
+						switch y := x.(type) {
+						case *ssa.BinOp:
+							_, okX := parsedOf(y.X)
+							_, okY := parsedOf(y.Y)
+							return y.Op == token.EQL && okX && okY
+						case *ssa.Call:
+							_, _, okH := aliasHelper(m, y.Call.StaticCallee())
+							return okH
+						case *ssa.Phi:
+							for _, e := range y.Edges {
+								if !okV(e, depth+1) {
+									return false
+								}
+							}
+							return true
+						}
+						return false
+					}
+					s.Check(okV(r.Results[0], 0), key, c.Pos(r.Pos()), "verdict composed of normalised equalities / verified alias helper", "the verdict is computed from something other than normalised equalities")
 					continue
 				}
 				// true only under an equality edge; false only after the loops
